@@ -878,6 +878,15 @@ func (e *Emitter) emitHelperFunctions(calledFunctions map[ir.FunctionHandle]bool
 		savedLocalVarStructTypes := e.localVarStructTypes
 		savedLocalVarArrayTypes := e.localVarArrayTypes
 		savedLoopStack := e.loopStack
+		// The remaining per-function local-variable tables: helpers are emitted
+		// before the entry point, when these are still nil, and a helper with a
+		// single-store / zero-store / init-only local wrote into a nil map.
+		savedLocalConstVecArrays := e.localConstVecArrays
+		savedZeroStoreLocals := e.zeroStoreLocals
+		savedInitOnlyLocals := e.initOnlyLocals
+		savedSingleStoreLocals := e.singleStoreLocals
+		savedOutputPromotedLocals := e.outputPromotedLocals
+		savedOutputPromotedStores := e.outputPromotedStores
 
 		e.mainFn = dxilFn
 		e.exprValues = make(map[ir.ExpressionHandle]int)
@@ -886,6 +895,12 @@ func (e *Emitter) emitHelperFunctions(calledFunctions map[ir.FunctionHandle]bool
 		e.localVarComponentPtrs = make(map[uint32][]int)
 		e.localVarStructTypes = make(map[uint32]*module.Type)
 		e.localVarArrayTypes = make(map[uint32]*module.Type)
+		e.localConstVecArrays = make(map[uint32][][]float32)
+		e.zeroStoreLocals = make(map[uint32]ir.TypeHandle)
+		e.initOnlyLocals = make(map[uint32]ir.ExpressionHandle)
+		e.singleStoreLocals = make(map[uint32]ir.ExpressionHandle)
+		e.outputPromotedLocals = make(map[uint32]bool)
+		e.outputPromotedStores = make(map[outputStoreKey]ir.ExpressionHandle)
 		e.loopStack = nil
 		e.emittingHelperFunction = true
 		e.helperReturnComps = retNumComps
@@ -967,6 +982,12 @@ func (e *Emitter) emitHelperFunctions(calledFunctions map[ir.FunctionHandle]bool
 		e.localVarComponentPtrs = savedLocalVarComponentPtrs
 		e.localVarStructTypes = savedLocalVarStructTypes
 		e.localVarArrayTypes = savedLocalVarArrayTypes
+		e.localConstVecArrays = savedLocalConstVecArrays
+		e.zeroStoreLocals = savedZeroStoreLocals
+		e.initOnlyLocals = savedInitOnlyLocals
+		e.singleStoreLocals = savedSingleStoreLocals
+		e.outputPromotedLocals = savedOutputPromotedLocals
+		e.outputPromotedStores = savedOutputPromotedStores
 		e.loopStack = savedLoopStack
 		e.globalVarAllocas = savedGlobalVarAllocas
 		e.globalVarAllocaTypes = savedGlobalVarAllocaTypes
